@@ -456,6 +456,110 @@ def r9_7(ctx):
     ctx.floor(rid, n, 2, "kinds of inequality interpreted")
 
 
+# members that leave their receiver omega-reduced: omega_reduce itself, and pairwise_reduce, which starts with it
+R98_ESTABLISH = ("omega_reduce", "pairwise_reduce")
+
+
+def r9_8(ctx):
+    import re
+    rid = "R9.8"
+    ctx.rule(rid, "certificates are collected on omega-reduced powersets only: collect_certificates() counts one certificate per disjunct and asserts (in debug builds only) that its receiver is omega-reduced — a redundant disjunct changes the multiset and with it the outcome of the widening. The members that start with such an assertion on an operand (read from the source text, the assertion being compiled away) form the table; a member of Pointset_Powerset that calls one of them on its receiver or on a parameter either carries the same assertion for that operand or has called omega_reduce() on it on every path to the call")
+    fx = ctx.extract([F.driver_unit("domains.cc", file_re=r"(Pointset_Powerset|Powerset)_(templates|inlines)\.hh")])
+    funcs = {}
+    for f in fx.functions:
+        if f.flag("pattern") and f.clsn in ("Pointset_Powerset", "Powerset") and f.cfg:
+            funcs.setdefault((f.relfile, f.line), f)
+    src_cache = {}
+
+    def asserted(f):
+        """operands ('this' or a parameter name) the body asserts to be omega-reduced"""
+        if f.file not in src_cache:
+            src_cache[f.file] = open(f.file).read().split("\n")
+        lines = src_cache[f.file][f.line - 1:f.j.get("endline", f.line + 200)]
+        out = set()
+        started = False
+        in_debug = False
+        for ln in lines:
+            t = ln.strip()
+            if not started:
+                if "{" in t:
+                    started = True
+                continue
+            if t.startswith("#ifndef NDEBUG"):
+                in_debug = True
+                continue
+            if in_debug:
+                if t.startswith("#endif"):
+                    in_debug = False
+                continue
+            # the precondition block: assertions, comments, the alias of the receiver
+            m = re.match(r"^PPL_ASSERT(?:_HEAVY)?\(\s*(?:(\w+)\.)?is_omega_reduced\(\)\s*\);$", t)
+            if m:
+                out.add("this" if m.group(1) in (None, "x") else m.group(1))
+                continue
+            if not t or t.startswith("//") or t.startswith("PPL_ASSERT") or re.match(r"^(const\s+)?[A-Za-z_:<>]+&\s+x\s*=\s*\*this;$", t):
+                continue
+            break
+        return out
+    requires = {}
+    for f in funcs.values():
+        a = asserted(f)
+        if "this" in a:
+            requires[f.name] = "asserts it"
+    changed = True
+    while changed:          # a member that hands its unreduced receiver to a requiring member requires it too
+        changed = False
+        for f in funcs.values():
+            if f.name in requires or f.name in ("omega_reduce", "is_omega_reduced"):
+                continue
+            for c in f.calls():
+                if f.call_name(c).lstrip("~") in requires and c["k"] == "mcall":
+                    o = f.call_obj(c)
+                    ot = f.text(f.deref(o)).strip() if o is not None else "this"
+                    if ot in ("this", "x", "(*this)", "*this") or o is None:
+                        red = lambda nod: nod["k"] == "mcall" and f.call_name(nod).lstrip("~") in R98_ESTABLISH and (f.call_obj(nod) is None or f.text(f.deref(f.call_obj(nod))).strip() in ("x", "*this", "(*this)"))
+                        if flow.must_precede(f, c, red) is not None:
+                            requires[f.name] = "passes its receiver to %s" % f.call_name(c)
+                            changed = True
+                            break
+    ctx.require(rid, "collect_certificates" in requires, "collect_certificates no longer asserts that its receiver is omega-reduced")
+    n = 0
+    for f in sorted(funcs.values(), key=lambda g: (g.relfile, g.line)):
+        if f.j.get("access") != "public":
+            continue
+        pnames = set(p["n"] for p in f.params if p["n"])
+        for c in f.calls():
+            cn = f.call_name(c).lstrip("~")
+            if cn not in requires or c["k"] != "mcall":
+                continue
+            o = f.call_obj(c)
+            ot = f.text(f.deref(o)).strip() if o is not None else "this"
+            if ot in ("x", "*this", "(*this)"):
+                ot = "this"
+            if ot != "this" and ot not in pnames:
+                continue          # a local: its reduction state follows from how it was built, not judged
+            n += 1
+            inst = "%s: %s.%s() (line %s)" % (f.name, ot, cn, c.get("l"))
+            if ot in asserted(f) or (ot == "this" and f.name in requires and requires[f.name] == "asserts it"):
+                ctx.ok(rid, inst, f.where(c))
+                continue
+
+            def red(nod, ot=ot):
+                if nod["k"] != "mcall" or f.call_name(nod).lstrip("~") not in R98_ESTABLISH:
+                    return False
+                oo = f.call_obj(nod)
+                t = f.text(f.deref(oo)).strip() if oo is not None else "this"
+                if t in ("x", "*this", "(*this)"):
+                    t = "this"
+                return t == ot
+            bad = flow.must_precede(f, c, red)
+            if bad is None:
+                ctx.ok(rid, inst, f.where(c))
+            else:
+                ctx.violation(rid, inst, f.where(c), "`%s` requires an omega-reduced operand (%s) and `%s` has not been reduced on this path (%s): a redundant disjunct changes the certificates and the result of the widening" % (cn, requires[cn], ot if ot != "this" else "*this", flow.render_path(f, bad)))
+    ctx.floor(rid, n, 3, "calls of members that need an omega-reduced operand")
+
+
 def run(ctx):
     ctx.explanation = ("C09 structural clauses on Determinate<PSET> and Pointset_Powerset<C_Polyhedron|NNC_Polyhedron|Grid>: copy-on-write discipline, "
                        "uniform lifting of base operations to every disjunct, dimension bookkeeping; decides these clauses, not that reductions preserve the union")
@@ -469,3 +573,4 @@ def run(ctx):
     r9_5(ctx)
     r9_6(ctx, fx)
     r9_7(ctx)
+    r9_8(ctx)
